@@ -458,19 +458,26 @@ def _cleanup_document_structure(soup):
 
 
 def _deactivate_deleted_active_elements(soup):
-    wrapped = set()
+    moved = {}
     for element in soup.find_all(ACTIVE_ELEMENTS):
+        if any(id(parent) in moved for parent in element.parents):
+            continue
         if element.find_parent('del'):
-            # A `<template>` inside embedded SVG or MathML is not an HTML
-            # template and nothing in it is inert, so wrap the whole graphic.
-            foreign = element.find_parents(['svg', 'math'])
-            target = foreign[-1] if foreign else element
-            if id(target) in wrapped:
-                continue
-            wrapped.add(id(target))
             wrapper = soup.new_tag('template')
             wrapper['class'] = 'wm-diff-deleted-inert'
-            target.wrap(wrapper)
+            foreign = element.find_parents(['svg', 'math'])
+            if foreign:
+                # A `<template>` inside embedded SVG or MathML is not an HTML
+                # template and nothing in it is inert, so move the element
+                # out of the graphic, into a template right after it.
+                after = foreign[-1]
+                while id(after.next_sibling) in moved.values():
+                    after = after.next_sibling
+                after.insert_after(wrapper)
+                wrapper.append(element.extract())
+                moved[id(element)] = id(wrapper)
+            else:
+                element.wrap(wrapper)
 
     return soup
 
